@@ -895,23 +895,20 @@ fn scenario(args: &Args, dir: &std::path::Path, out: &mut Out, ex: &mut Extra) {
     }
 
     // ---- stream C: single-bit corruption of valid messages
-    let mut sweeps: Vec<(&str, Vec<u8>, Value)> = Vec::new();
-    {
-        let c2 = &remotes[2];
-        let m = provisioning::Message::list(child_handle(&c2.handle).convert(), parent_handle(PAR).convert());
-        let bytes = sign6492(&w, m.clone(), &c2.id).expect("sign");
-        sweeps.push(("6492-list", bytes, json!(null)));
-        let c0 = &remotes[0];
-        let m2 = provisioning::Message::issue(child_handle(&c0.handle).convert(), parent_handle(PAR).convert(),
-            IssuanceRequest::new(ResourceClassName::from(0u32), limit_of_mask(0x01), make_csr(&w, &c0.cert_keys[2])));
-        let bytes2 = sign6492(&w, m2.clone(), &c0.id).expect("sign");
-        sweeps.push(("6492-issue", bytes2, json!(null)));
-    }
     pre = observe_parent(&mut w);
-    for (si, (name, bytes, _)) in sweeps.iter().enumerate() {
+    for (si, name) in ["6492-list", "6492-issue"].iter().enumerate() {
         if si >= sweep_msgs { break }
+        // signed right before its own sweep: a CMS is valid for five minutes only
+        let (m, signer) = if *name == "6492-list" {
+            let c2 = &remotes[2];
+            (provisioning::Message::list(child_handle(&c2.handle).convert(), parent_handle(PAR).convert()), c2.id.clone())
+        } else {
+            let c0 = &remotes[0];
+            (provisioning::Message::issue(child_handle(&c0.handle).convert(), parent_handle(PAR).convert(),
+                IssuanceRequest::new(ResourceClassName::from(0u32), limit_of_mask(0x01), make_csr(&w, &c0.cert_keys[2]))), c0.id.clone())
+        };
+        let bytes = &sign6492(&w, m, &signer).expect("sign");
         let original = ProvisioningCms::decode(bytes).expect("valid message decodes").into_message();
-        let signer = if *name == "6492-list" { remotes[2].id.clone() } else { remotes[0].id.clone() };
         let xml = original.to_xml_bytes();
         let ec = find_sub(bytes, xml.as_ref()).unwrap_or(bytes.len() / 4);
         // the untouched message first
@@ -936,6 +933,8 @@ fn scenario(args: &Args, dir: &std::path::Path, out: &mut Out, ex: &mut Extra) {
         let signer = p1.id.clone();
         let h = p1.handle.clone();
         rpre = observe_repo(&mut w, ver0);
+        // the untouched message first (it publishes the object; a CMS is valid for five minutes only)
+        rpre = case8181(&mut w, out, &rpre, &h, &bytes, &m, &signer, None, "C-base", ver0);
         for (bit, region) in flip_positions(&mut rng, bytes.len(), ec, xml.len(), per_msg_flips, thorough) {
             let mut b = bytes.clone();
             b[bit / 8] ^= 1 << (bit % 8);
@@ -944,8 +943,6 @@ fn scenario(args: &Args, dir: &std::path::Path, out: &mut Out, ex: &mut Extra) {
             rpre = case8181(&mut w, out, &rpre, &h, &b, &m, &signer, Some(bit), "C-flip", ver0);
             if let Ok(v) = serde_json::from_str::<Value>(&out.lines[before]) { if v["outcome"] != "refused" { ex.accepted_flips.push(json!({"message": "8181-publish", "bit": bit, "region": region, "identical": v["decodes_to_identical_message"], "outcome": v["outcome"]})); } }
         }
-        // the untouched message last (it publishes the object)
-        rpre = case8181(&mut w, out, &rpre, &h, &bytes, &m, &signer, None, "C-base", ver0);
     }
     let _ = rpre;
 
